@@ -717,6 +717,7 @@ func zsScenarios(thorough bool) []*zsScenario {
 	add(&zsScenario{Name: "impatient-alone", GPUs: metal1, Reqs: []zsReq{{Model: "A", Hold: 1, Impatient: true}}})
 	add(&zsScenario{Name: "impatient-then-other", GPUs: metal1, Reqs: []zsReq{{Model: "A", Hold: 1, Impatient: true}, {Model: "B", Hold: 1}}})
 	add(&zsScenario{Name: "two-gpus-requeue", GPUs: []zsGPU{{Library: "metal", ID: "0"}, {Library: "metal", ID: "1", Total: 1 << 20}}, Env: map[string]string{"OLLAMA_NUM_PARALLEL": "2"}, Reqs: []zsReq{{Model: "A", Hold: 1}, {Model: "B", Hold: 1}}})
+	add(&zsScenario{Name: "small-queue-keepalive0", GPUs: metal1, Env: map[string]string{"OLLAMA_MAX_QUEUE": "1"}, Reqs: []zsReq{{Model: "A", KeepAlive: "0", Hold: 1}, {Model: "B", KeepAlive: "0", Hold: 1}}})
 	add(&zsScenario{Name: "queue-full", GPUs: metal1, Env: map[string]string{"OLLAMA_MAX_QUEUE": "1"}, Reqs: []zsReq{{Model: "A", Hold: 1}, {Model: "A", Hold: 1}, {Model: "A", Hold: 0}}})
 	add(&zsScenario{Name: "three-models-max2", GPUs: metal1, Env: map[string]string{"OLLAMA_MAX_LOADED_MODELS": "2"}, Reqs: []zsReq{{Model: "A", Hold: 1}, {Model: "B", Hold: 1}, {Model: "C", Hold: 1}}})
 	add(&zsScenario{Name: "fit-tight", GPUs: metal1, FitTight: true, VRAM: map[string]uint64{"A": 1 << 30, "B": 1 << 30}, Env: map[string]string{"OLLAMA_NUM_PARALLEL": "1"}, Reqs: []zsReq{{Model: "A", Hold: 1}, {Model: "B", Hold: 1}}})
